@@ -170,7 +170,8 @@ namespace xsimd
     XSIMD_INLINE auto
     aligned_allocator<T, A>::allocate(size_type n, const void*) -> pointer
     {
-        pointer res = reinterpret_cast<pointer>(aligned_malloc(sizeof(T) * n, A));
+        // sizeof(T) * n must not wrap around: such a request is reported like any other failed allocation
+        pointer res = n > max_size() ? nullptr : reinterpret_cast<pointer>(aligned_malloc(sizeof(T) * n, A));
 #if defined(_CPPUNWIND) || defined(__cpp_exceptions)
         if (res == nullptr)
             throw std::bad_alloc();
